@@ -34,7 +34,9 @@ def _loader(case):
         keys = [tuple(dt(x) for x in k) for k in keys]        # keys loaded from numpy data (small values, no overflow)
     scale = case.get("scale", "int")
     W = sum(case["wts"])
-    val = {"int": lambda w: w, "norm": lambda w: w / W, "unnorm": lambda w: w * 0.37}[scale]
+    # "any positive weights, normalised or not": also weights that are tiny or huge in absolute terms (exact powers of two)
+    val = {"int": lambda w: w, "norm": lambda w: w / W, "unnorm": lambda w: w * 0.37,
+           "tiny": lambda w: w * 2.0 ** -60, "huge": lambda w: w * 2.0 ** 40}[scale]
     jdd = {k: val(w) for k, w in zip(keys, case["wts"]) if w > 0 or case.get("keep_zero")}
     params = {JN.JDD: jdd, JN.MOTIF_SIZES: list(case["sizes"])}
     pre = case.get("pre")
@@ -65,6 +67,9 @@ def _loader(case):
             ld.empirical_jds = obs1
             ld.create_jdd()
         return ld
+    if case.get("cover"):
+        # "any joint degree distribution": one that a loader derived from a clique cover (singleton cliques give motif size 1)
+        return gcmpy.JointDegreeCover({JN.COVER: [list(c) for c in case["cover"]]})
     if case.get("via") == "entry":
         params[JN.JOINT_DEGREE_TYPE] = "manual"
         return gcmpy.JointDegreeDistribution.load_joint_degree(params)
@@ -80,6 +85,11 @@ def execute(case):
     captured = {}
     try:
         loader = _loader(case)
+        if case.get("cover"):
+            # distribution and motif sizes are whatever the loader reports (its correctness is C08's business)
+            tr["keys"] = [[int(x) for x in k] for k in loader.jdd]
+            tr["wts"] = [1] * len(tr["keys"])
+            tr["sizes"] = [int(x) for x in loader.motif_sizes]
         orig = getattr(loader, "handshaking_lemma", None)
         if callable(orig):
             def wrapper(jds, *a, **k):
@@ -104,7 +114,7 @@ def execute(case):
     if "raw" in captured:
         tr["raw_known"] = True
         tr["raw"] = [[int(x) for x in r] for r in captured["raw"]]
-    K = len(case["sizes"])
+    K = len(tr["sizes"])
     ok = isinstance(out, list)
     enc = []
     for e in (out if ok else []):
@@ -125,11 +135,11 @@ def execute(case):
     if ok:
         # "usable wherever the library accepts a joint degree sequence"
         try:
-            gcmpy.JointDegreeEmpirical({JN.MOTIF_SIZES: list(case["sizes"]), JN.JDS: out})
+            gcmpy.JointDegreeEmpirical({JN.MOTIF_SIZES: list(tr["sizes"]), JN.JDS: out})
         except Exception as ex:
             tr["usable_empirical"] = type(ex).__name__
         try:
-            params = {GN.MOTIF_SIZES: list(case["sizes"]), GN.BUILD_FUNCTIONS: [gcmpy.clique_motif] * K,
+            params = {GN.MOTIF_SIZES: list(tr["sizes"]), GN.BUILD_FUNCTIONS: [gcmpy.clique_motif] * K,
                       GN.EDGE_NAMES: ["t%d" % k for k in range(K)]}
             Oracle().run_seeded(1, lambda: gcmpy.GCMAlgorithmFast(params).random_clustered_graph(out))
         except Exception as ex:
@@ -224,6 +234,8 @@ def run(chk):
                     traces.append(tr); chk.rng_leaves += 1
     for wts in ([1, 2, 3], [5, 1, 1], [2, 2, 3], [1, 0, 6]):
         dists.append(dist_trace({"keys": KS[1], "wts": wts, "sizes": [2], "N": 2, "scale": "norm"}))
+        dists.append(dist_trace({"keys": KS[1], "wts": wts, "sizes": [2], "N": 2, "scale": "tiny"}))
+        dists.append(dist_trace({"keys": KS[1], "wts": wts, "sizes": [3], "N": 1, "scale": "huge"}))
         dists.append(dist_trace({"keys": [(0, 3), (1, 1), (4, 0)], "wts": wts, "sizes": [3, 2], "N": 1, "scale": "unnorm"}))
     chk.rng_leaves += sum(d["leaves"] for d in dists)
     undd = [d for d in dists if not d["decided"]]
@@ -238,9 +250,20 @@ def run(chk):
         keys = list({tuple(rng.randrange(0, 6) for _ in range(T)) for _ in range(nk)})
         case = {"keys": keys, "wts": [rng.randrange(1, 9) for _ in keys], "sizes": [rng.choice([1, 2, 3, 4, 5]) for _ in range(T)],
                 "N": rng.choice([1, 2, 3, 7, 50, 400, 2000]) if not thorough else rng.randrange(1, 2000),
-                "scale": rng.choice(["int", "norm", "unnorm"]), "via": rng.choice(["direct", "entry"]),
+                "scale": rng.choice(["int", "norm", "unnorm", "tiny", "huge"]), "via": rng.choice(["direct", "entry"]),
                 "rng": ("seed", rng.randrange(1 << 30))}
         traces.append(execute(case))
+    # (d) distributions derived from clique covers, singleton cliques (motif size 1) included
+    for i in range(400 if thorough else 60):
+        nv = rng.choice([4, 7, 12])
+        cover = []
+        for _ in range(rng.randrange(2, 9)):
+            sz = rng.choice([1, 1, 2, 2, 3, 4])
+            cover.append(sorted(rng.sample(range(nv), min(sz, nv))))
+        used = sorted({v for c in cover for v in c})          # the cover loader wants vertex ids 0..n-1 (or 1..n) without gaps
+        cover = [[used.index(v) for v in c] for c in cover]
+        traces.append(execute({"keys": [], "wts": [], "sizes": [], "cover": cover, "N": rng.choice([1, 2, 3, 7, 40]),
+                               "rng": ("seed", rng.randrange(1 << 30))}))
     for t in traces:
         t.pop("trail", None)
     patched = [t for t in traces if t["raw_known"] and t["raw"] != t["out"] and not t["raised"]]
